@@ -35,6 +35,7 @@ type inst struct {
 	client  *clientv3.Client
 	gate    *etcdh.GateKV
 	pending chan string // result of a parked call
+	queued  chan string // result of a call issued behind the parked one (it must wait for the allocator's mutex)
 	rc      *cluster.RaftCluster // split handling (cluster_worker.go) drawing from this allocator
 }
 
@@ -122,6 +123,9 @@ func (w *world) reset() {
 		if in.pending != nil {
 			in.gate.Release(etcdh.ErrBefore)
 			<-in.pending
+			if in.queued != nil {
+				<-in.queued
+			}
 		}
 		in.client.Close()
 	}
@@ -166,8 +170,30 @@ func (w *world) exec(op string) string {
 		return "ok"
 	case len(f) == 3 && (f[0] == "alloc" || f[0] == "rebase"):
 		in := get(f[1])
-		if in == nil || in.pending != nil {
+		if in == nil || in.queued != nil {
 			return bad
+		}
+		if in.pending != nil {
+			// behind a parked Alloc / Rebase: the call has to wait for the allocator's mutex
+			if f[2] != "none" {
+				return bad
+			}
+			done := make(chan string, 1)
+			go func() {
+				if f[0] == "alloc" {
+					v, err := in.alloc.Alloc()
+					done <- outOf(v, err, true)
+				} else {
+					done <- outOf(0, in.alloc.Rebase(), false)
+				}
+			}()
+			select {
+			case r := <-done:
+				return r
+			case <-time.After(250 * time.Millisecond):
+				in.queued = done
+				return "blocked"
+			}
 		}
 		in.gate.SetFault(fault(f[2]))
 		defer in.gate.SetFault(etcdh.None)
@@ -209,6 +235,10 @@ func (w *world) exec(op string) string {
 		in.gate.Release(fault(f[2]))
 		r := <-in.pending
 		in.pending = nil
+		if in.queued != nil {
+			r = r + " ; " + <-in.queued
+			in.queued = nil
+		}
 		return r
 	case len(f) == 3 && f[0] == "split": // instance, peers: pdpb AskSplit
 		in := get(f[1])
@@ -250,6 +280,7 @@ func gen(w *world, t *trace.W, r *rng.R, maxOps int) {
 	n := r.Range(1, 3)
 	members := r.Range(1, 3)
 	parked := map[int]bool{}
+	probed := map[int]bool{}
 	for i := 0; i < n; i++ {
 		w.run(t, fmt.Sprintf("new %d", r.Range(1, members)))
 	}
@@ -261,10 +292,16 @@ func gen(w *world, t *trace.W, r *rng.R, maxOps int) {
 		i := r.Intn(len(w.insts))
 		f := faults[r.Intn(len(faults))]
 		var op string
-		if parked[i] {
+		if parked[i] && !probed[i] && r.Bool(1, 4) {
+			// a second call on the same allocator must wait behind the parked one
+			probed[i] = true
+			op = []string{"alloc %d none", "alloc %d none", "rebase %d none"}[r.Intn(3)]
+			op = fmt.Sprintf(op, i)
+		} else if parked[i] {
 			if r.Bool(1, 2) {
 				op = fmt.Sprintf("finish %d %s", i, f)
 				delete(parked, i)
+				delete(probed, i)
 			} else {
 				// do something with another instance / the leader instead
 				op = fmt.Sprintf("leader %d", r.Range(0, members))
